@@ -116,6 +116,35 @@ def run(ctx):
     from engine.fixture import generic_fixture as _gfps
     _gfps(ctx, [('PTR-SCALE', ptr_scale, 'bad_ptrscale')])
 
+    ctx.rule('FAIL-NOWRITE', 'a failing open must not write to the file it could not open: every psf_close call on the failure path of psf_open_file (each one that is followed by `return NULL`) is dominated by '
+             'a statement that takes the handle out of the writing modes (psf->file.mode = SFM_READ) or removes the close hooks (container_close / codec_close = NULL): the close hooks of '
+             'WAV, AIFF ... rewrite tailer and header under `mode == SFM_WRITE || mode == SFM_RDWR`, and an SFM_RDWR open that fails half way through the header would otherwise store its '
+             'half-parsed state over an existing file', floor=1)
+    pof = prog.fn('psf_open_file', 'sndfile.c')
+    n_fw = 0
+    for c_ in pof.calls('psf_close'):
+        pc_ = pof.cfg.point(c_)
+        if pc_ is None:
+            continue
+        n_fw += 1
+        neutral = []
+        for lv, a, r in assigned_lvalues(pof):
+            if r is None or a.get('op') != '=':
+                continue
+            rv = pof.unwrap(r)
+            if (lv == 'psf->file.mode' and (pof.s(rv) == 'SFM_READ' or rv.get('v') == 0x10)) or (lv in ('psf->container_close', 'psf->codec_close') and rv.get('v') == 0):
+                neutral.append(a)
+        ok = any(pof.cfg.dominates(a, c_) or (pof.cfg.point(a) is not None and pof.cfg.path_avoiding((pof.cfg.entry, -1), {pc_[0]}, {pof.cfg.point(a)}) is None) for a in neutral)
+        if not ok and neutral:
+            # a conditional `if (mode == SFM_RDWR) mode = SFM_READ` dominates through its IfStmt: accept when the IfStmt dominates and its condition tests the writing mode
+            for a in neutral:
+                for anc in pof.ancestors(a):
+                    if anc['k'] == 'IfStmt' and 'SFM_RDWR' in pof.s(anc['cond']) and (pof.cfg.dominates(anc, c_) or any(pof.cfg.dominates(x, c_) for x in pof.walk(pof.N[anc['cond']]))):
+                        ok = True
+        ctx.ob('FAIL-NOWRITE', 'psf_open_file:psf_close@%d' % c_['l'], ok, pof.loc(c_), 'the failing open %s' % ('leaves the writing mode before it closes the handle' if ok else
+               'closes the handle in its original mode: for SFM_RDWR the container close hook rewrites the header of a file the open has just rejected'), None)
+    ctx.require(n_fw >= 1, 'psf_open_file: no psf_close on the failure path')
+
     ctx.rule('READF-ZERO', 'psf_binheader_readf clears the caller\'s target (`*ptr = 0` / memset (ptr, 0, n)) in every format arm before header_read fills it: after a short or failed read the '
              'parser sees zeros, never the previous chunk\'s bytes or uninitialised memory (LOOP-IO relies on exactly this to conclude that parser loops notice a dead stream)', floor=9)
     from engine.arms import switch_arm_stmts as _sas
